@@ -69,6 +69,9 @@ class RequestChannelCommon(StreamHandler, Publisher, Subscription, Disposable, m
                 logger().warning('%s: Received request_n but no publisher provided', self.__class__.__name__)
 
         elif isinstance(frame, PayloadFrame):
+            if self._received_complete:
+                return  # receiving direction already closed (completed, failed or cancelled by the application)
+
             if frame.flags_next:
                 self.remote_subscriber.on_next(payload_from_frame(frame),
                                                is_complete=frame.flags_complete)
